@@ -15,7 +15,7 @@ T = {
          "Same space as C01 in both formats (D-Bus, GVariant), dynamic and typed values: decode(encode(v)) == v and consumed == encoded length for every case.",
          "Equality is bitwise for floats and set-wise for maps; bounds as C01.", "§6 C02"),
  "C03": ("zv", EX, "exhaustive byte-string and mutation enumeration vs strict reference decoder",
-         "All byte strings up to a length over a 9-byte alphabet for every small type, plus every 1-byte substitution/truncation of every valid encoding: the real decoder accepts iff the strict reference decoder accepts a prefix, with equal value and consumed length.",
+         "All byte strings up to a length over a 9-byte alphabet for every small type, plus every 1-byte substitution/truncation of every valid encoding, plus nesting around the limits through variants: the real decoder accepts iff the strict reference decoder accepts a prefix, with equal value and consumed length.",
          "Reference decoder implements exactly the reject classes the property names; byte alphabet and length are the bound.", "§6 C03"),
  "C04": ("zv", EX, "exhaustive hostile-input enumeration in child processes with panic/alloc/stack monitors",
          "C03's inputs plus structural stress, in four feature builds and both formats, decoded in child processes under a counting allocator and a small stack: never a panic/abort/overflow/gross allocation; re-encoding decoded values never panics.",
@@ -63,7 +63,7 @@ T = {
          "2–3 sender tasks on one real connection; sendmsg answers (all/1 byte/half/Pending) and task polls are explorer choices: the peer's byte stream parses into exactly the sent messages, fds with first bytes, per-sender order kept, in every explored schedule.",
          "Interleaving granularity is one task poll on one thread; deviation bound reported in the evidence.", "§6 C18"),
  "C19": ("zb", MC, "stateless DFS over task polls and peer emissions (deviation-bounded)",
-         "2–3 concurrent callers against a scripted peer whose replies/errors/strays/signals/EOF and virtual timer expiry are environment events in every order: each call completes exactly once with its own reply or a legitimate error; no-reply calls complete without inbound traffic; nothing hangs.",
+         "1–3 concurrent callers (Connection::call_method, Proxy::call_method, Proxy::call_with_flags) against a scripted peer, optionally with a scheduling point right after each write, whose replies/errors/strays/signals/EOF and virtual timer expiry are environment events in every order: each call completes exactly once with its own reply or a legitimate error; no-reply calls complete without inbound traffic; nothing hangs.",
          "Peer answers only calls it has completely received; time is virtual (hook H2).", "§6 C19"),
  "C20": ("zb", MC, "full operation-history tree + deviation-bounded schedule DFS with back-pressure",
          "Every history of create/clone/drop/inbound/poll up to a depth on a real connection against a list model (exactly-once, in order, subscription lifetime), plus consumer tasks with queue capacity 1–2 and rotated fan-out order under all schedules up to a bound.",
@@ -78,10 +78,10 @@ T = {
          "Every transport × option subsets × values over byte classes: parse(print(a)) == a, and parsing applies the specification's percent-decoding to every value.",
          "Value alphabet has one representative per byte class; lengths ≤ 3.", "§6 C23"),
  "C24": ("zb", MC, "explicit-state BFS over at/remove/lookup histories on the real object server",
-         "The full history tree of at/remove over 4 paths × 2 interfaces to a depth; after every step every (path, interface) is probed by lookup, by a call over the wire and by Introspect and compared with a set model; no panic.",
+         "The full history tree of at/remove over 4 paths × 2 interfaces to a depth, in two path universes (parent/child/sibling; grandchild below an unregistered node with a prefix-named sibling); after every step every (path, interface) is probed by lookup, by a call over the wire and by Introspect and compared with a set model; no panic.",
          "Each transition = one API call + quiescence on the default schedule.", "§6 C24"),
  "C25": ("zb", MC, "explicit-state BFS with a client-side ObjectManager mirror",
-         "C24's alphabet plus ObjectManager at two paths; after every step the client's mirror (listing + InterfacesAdded/Removed applied in order) equals GetManagedObjects, with current properties.",
+         "C24's alphabet (both path universes) plus ObjectManager at two paths; after every step the client's mirror (listing + InterfacesAdded/Removed applied in order) equals GetManagedObjects, with current properties.",
          "As C24.", "§6 C25"),
  "C26": ("zb", EX, "enumerated interface bank × right/wrong calls on a real p2p pair",
          "A generated bank of methods × correct and mis-addressed/mis-typed calls: handler runs exactly when everything matches; exactly one reply (or the standard error) per call.",
@@ -90,7 +90,7 @@ T = {
          "For the bank on several trees: XML well-formed under expat, read back by zbus_xml, lists exactly interfaces/children, declared types equal what the wire shows.",
          "As C26.", "§6 C27"),
  "C28": ("zb", MC, "BFS over Get/GetAll/Set histories on generated property definitions",
-         "Property kinds × access × emits-changed modes under every short history of Get/GetAll/Set (valid and invalid): values, errors and exactly-one PropertiesChanged as the definitions say.",
+         "Property kinds × access × emits-changed modes under every short history of Get/GetAll/Set (valid, invalid, refused by the setter): values, errors and exactly-one PropertiesChanged as the definitions say.",
          "As C24.", "§6 C28"),
  "C29": ("zb", MC, "stateless DFS over task polls with yielding handlers (deviation-bounded)",
          "Bursts of 3 calls to handlers that yield 0–2 times at harness-controlled points: with spawn=false the handler intervals are disjoint and in arrival order in every schedule; with spawning every call is answered exactly once.",
@@ -117,7 +117,7 @@ T = {
          "Every history of request_name/release_name with flags, other peers taking/releasing the name and forged driver signals: AlreadyOwner/InQueue/release results follow what the bus last granted.",
          "Fake bus implements the message-bus name rules; no state merging.", "§6 C36"),
  "C37": ("zb", MC, "full history tree of stream/proxy create/clone/drop against a recording fake bus",
-         "Every history of creating, cloning and (async-)dropping streams and proxy signal streams: AddMatch minus RemoveMatch seen by the bus equals the distinct rules with a live subscriber; never a double add or a remove in use.",
+         "Every history of creating (also two at once, also refused by the bus, also right after a drop), cloning and (async-)dropping streams and proxy signal streams: AddMatch minus RemoveMatch seen by the bus equals the distinct rules with a live subscriber; never a double add or a remove in use.",
          "As C36.", "§6 C37"),
  "C38": ("zb", FE, "fault injection at every inbound byte offset and every write call + deviation-bounded schedule DFS",
          "One scripted session × {EOF, I/O error} at every byte offset of the inbound stream and I/O error at every sendmsg call; around each fault all schedules up to a bound: pending calls end with errors, streams yield exactly the completely received messages then end, later work fails promptly, nothing hangs or panics.",
